@@ -699,7 +699,9 @@ func (pg *program) generatePackage(pkgInfo *loader.PackageInfo) error {
 		pkgInfo = thisprogram.Package(path)
 	}
 
-	if len(undefined) > 0 && !generated {
+	// The loop only ends here when a pass left the waiting calls as the pass before it found them,
+	// whether or not it generated the functions of the other calls once more.
+	if len(undefined) > 0 {
 		return fmt.Errorf("cannot generate: %s", undefined)
 	}
 	return nil
